@@ -3,7 +3,7 @@
 
 def replay_verbs(inputs, obl):
     sel = {'eval_dyad_take': '#', 'eval_dyad_drop': '_', 'eval_monad_first': '*', 'eval_monad_reverse': '|', 'eval_dyad_rotate': ':+',
-           'eval_dyad_split': ':#', 'finditer': '?', '_e_dyad_integer_divide': ':%'}
+           'eval_dyad_split': ':#', 'finditer': '?', '_e_dyad_integer_divide': ':%', 'eval_dyad_cut': ':_', 'eval_dyad_at_index': '@'}
     fn = obl.split('::')[1].split('#')[0].split('[')[0] if '::' in obl else ''
     tok = sel.get(fn)
     import numpy as np
@@ -85,6 +85,23 @@ def replay_verbs(inputs, obl):
                     q += sizes[p]
                     p = (p + 1) % len(sizes)
                 grid.append((f"{lit(sizes)}:#{lit(b)}", want))
+    if tok in (None, ':_'):
+        for n in range(1, 7):
+            b = list(range(1, n + 1))
+            for pts in [[p] for p in range(0, n + 1)] + [[p, q] for p in range(0, n + 1) for q in range(p, n + 1)]:
+                want, prev = [], 0
+                for p in pts:
+                    want.append(b[prev:p])
+                    prev = p
+                want.append(b[prev:])
+                grid.append((f"{lit(pts) if len(pts) > 1 else lit(pts[0])}:_{lit(b)}", want))
+    if tok in (None, '@'):
+        for n in range(1, 6):
+            b = [10 * v for v in range(1, n + 1)]
+            for i in range(n):
+                grid.append((f"{lit(b)}@{i}", b[i]))
+            for idx in ([0], [n - 1, 0], [0, 0, n - 1], list(range(n))[::-1]):
+                grid.append((f"{lit(b)}@{lit(idx)}", [b[i] for i in idx]))
     if tok is None or 'integer_divide' in obl:
         for x in counts:
             for y in counts:
